@@ -6,10 +6,12 @@ import (
 	"io"
 	"net"
 	"net/url"
+	"strings"
 	"time"
 
 	"github.com/cnotch/ipchub/media"
 	"github.com/cnotch/ipchub/network/socket/buffered"
+	"github.com/cnotch/ipchub/network/socket/listener"
 	"github.com/cnotch/ipchub/provider/auth"
 	"github.com/cnotch/ipchub/zzverif/symapi"
 )
@@ -388,5 +390,42 @@ func VerifTransportRanges() {
 	} else {
 		symapi.Assert(hi == -1, "missing-upper-bound-unset")
 	}
+	symapi.Reach("end")
+}
+
+// VerifPortMuxClassify (C19): the matchers the service registers on the shared port, in its
+// registration order (MatchRTSP first, then MatchHTTP), classify a first line over the
+// method / target / version grammar as the property says: RTSP methods go to RTSP; OPTIONS
+// is RTSP exactly when its target is '*' with an RTSP version or an rtsp:// URL; HTTP
+// methods (OPTIONS otherwise included) go to HTTP; anything else to nobody.
+func VerifPortMuxClassify() {
+	methods := []string{"OPTIONS", "DESCRIBE", "SETUP", "PLAY", "TEARDOWN", "GET_PARAMETER", "GET", "POST", "HEAD", "BREW"}
+	targets := []string{"*", "rtsp://h/a", "RTSP://h/a", "/live/a.flv", "http://h/x"}
+	versions := []string{"RTSP/1.0", "rtsp/1.0", "HTTP/1.1", "HTTP/1.0"}
+	mi := symapi.Choose("method", len(methods))
+	ti := symapi.Choose("target", len(targets))
+	vi := symapi.Choose("version", len(versions))
+	line := methods[mi] + " " + targets[ti] + " " + versions[vi] + "\r\n" + symapi.String("tail", 2)
+	rtspM, httpM := MatchRTSP(), listener.MatchHTTP()
+	chosen := "none"
+	if rtspM(strings.NewReader(line)) {
+		chosen = "rtsp"
+	} else if httpM(strings.NewReader(line)) {
+		chosen = "http"
+	}
+	want := "none"
+	switch {
+	case mi == 0: // OPTIONS
+		if (ti == 0 && vi <= 1) || ti == 1 || ti == 2 {
+			want = "rtsp"
+		} else {
+			want = "http"
+		}
+	case mi <= 5:
+		want = "rtsp"
+	case mi <= 8:
+		want = "http"
+	}
+	symapi.Assert(chosen == want, "first-line-routed-as-the-property-says")
 	symapi.Reach("end")
 }
